@@ -461,7 +461,7 @@ class Prepared:
         self.prep = prep
         self.fn = None
 
-    def run_passes(self, stored, steps):
+    def run_passes(self, stored, steps, faults=None):
         """`steps`: list of callables (cluster object or None) -> new cluster object or None, applied to
         the stored object *before* each pass.  Returns one observation per pass."""
         import celpy
@@ -493,6 +493,10 @@ class Prepared:
                         c.put(*KEY, rules.stamp(cur, new))
                 before = copy.deepcopy(c.get(*KEY))
                 n0 = len(c.log)
+                fault = (faults or {}).get(len(obs), (faults or {}).get(str(len(obs))))
+                c.faults.clear()
+                if fault is not None:          # the GET is the first API call of a pass
+                    c.faults[c.calls] = fault
                 try:
                     res = await reconcile_resource_function(
                         api=c, location="t", function=fn, owner=(NS, copy.deepcopy(ku.OWNER_REF)),
@@ -504,7 +508,9 @@ class Prepared:
                 except Exception as e:  # an exception leaves reconcile_resource_function
                     out = {"c": "raised", "exc": type(e).__name__}
                 reqs = [{"m": e["method"], "b": e["body"]} for e in c.mutations(n0)]
-                obs.append({"before": before, "o": out, "reqs": reqs, "after": copy.deepcopy(c.get(*KEY))})
+                c.faults.clear()
+                obs.append({"before": before, "o": out, "reqs": reqs, "after": copy.deepcopy(c.get(*KEY)),
+                            "fault": fault})
             return obs
 
         return ku.run(go())
@@ -767,11 +773,14 @@ def update_phase(ck, drv):
             ck.disagree({"kind": "update", "spec": s}, m, mine, "prepareUpdate")
 
 
-def run_scenario(ck, drv, p, stored, steps, relation="pass-observables"):
+GET_FAULTS = [400, 401, 403, 429, 500, 503, "raise-before", "no-response"]
+
+
+def run_scenario(ck, drv, p, stored, steps, relation="pass-observables", faults=None):
     """run the passes on the implementation, ask the model for each pass's possible results,
     record disagreements; returns (observations, abstractions) or None when prepare failed"""
     pr = Prepared(p)
-    obs = pr.run_passes(stored, steps)
+    obs = pr.run_passes(stored, steps, faults)
     if obs and "prepare" in obs[0]:
         ck.count("e2e:prepare-failed")
         ck.notes.append(f"prepare failed: {obs[0]['prepare'].get('msg')}"[:300]) if len(ck.notes) < 5 else None
@@ -779,7 +788,11 @@ def run_scenario(ck, drv, p, stored, steps, relation="pass-observables"):
     reqs, usable = [], []
     for o in obs:
         usable.append(True)          # the owner-reference branch is the model's own prediction now
-        reqs.append(pass_req(p, o["before"]))
+        req = pass_req(p, o["before"])
+        if o.get("fault") is not None:
+            req["loadFault"] = True
+            ck.count(f"e2e:get-fault:{o['fault']}")
+        reqs.append(req)
     try:
         ans = iter(drv.ask(reqs))
     except Exception as e:
@@ -795,7 +808,8 @@ def run_scenario(ck, drv, p, stored, steps, relation="pass-observables"):
         if u and ans is not None:
             ms = model_abstract(next(ans)["rs"])
             if ia not in ms:
-                ck.disagree({"kind": "e2e", "p": p, "befores": [o["before"]]}, ms, ia, relation)
+                ck.disagree({"kind": "e2e", "p": p, "befores": [o["before"]],
+                             "faults": {"0": o["fault"]} if o.get("fault") is not None else {}}, ms, ia, relation)
         # the codec hypothesis of the theorems, on what koreo really wrote
         for q in o["reqs"]:
             if q["m"] in ("POST", "PATCH"):
@@ -830,6 +844,15 @@ def oracle_c04_pass(p, o, prev=None):
     t = target_of(p)
     before = o["before"]
     muts = o["reqs"]
+    if o.get("fault") is not None:
+        # the load itself was answered with an error: the pass must not write at all
+        if muts or cn(o["after"]) != cn(before):
+            return (f"the GET was answered with {o['fault']} but the pass sent " +
+                    "+".join(q["m"] for q in muts) + " (object " +
+                    ("absent" if before is None else "present") + ")")
+        if o["o"]["c"] != "retry":
+            return f"the GET was answered with {o['fault']} and the pass returned {o['o']} instead of Retry"
+        return None
     if muts or cn(o["after"]) != cn(before):
         want = configured_delay(p, before)
         if o["o"]["c"] != "retry" or o["o"].get("d") != want:
@@ -859,7 +882,7 @@ def oracle_c05_pass(p, o):
     """a drifted live object gets exactly the policy's action; after a patch the object meets the target"""
     t = target_of(p)
     before = o["before"]
-    if before is None or not g.wf(t):
+    if before is None or not g.wf(t) or o.get("fault") is not None:
         return None
     try:
         la = extract_la(before)
